@@ -27,16 +27,18 @@ def split_cells(s):
 class C02(verif.Spec):
     prop = "C02"
     comp = "fmt"
-    lean_modules = ["ZvbiModel.Props.C02", "ZvbiModel.Props.C02Roundtrip"]
+    lean_modules = ["ZvbiModel.Props.C02", "ZvbiModel.Props.C02Roundtrip", "ZvbiModel.Props.C02Interleave"]
     harness = "fmt_harness"
     harness_link_lib = True
     timeout_per_case = 10.0
     partial_note = ("format_refines_L1Spec is proved for every page, subset and cell against L1Spec with libzvbi's "
                     "held-mosaic reading; against the standard's reset rule it is proved under the hypothesis that no "
                     "held mosaic survives a mode/size change (counterexample proved and replayed: known finding F37). "
-                    "page_roundtrip is proved for one magazine stream in parallel mode from any decoder state "
-                    "(Props/C02Roundtrip: single_page_roundtrip, page_roundtrip_parallel); interleaved magazines and serial mode "
-                    "are open statements covered by the network oracle; "
+                    "page_roundtrip is proved for one transmission in parallel mode with arbitrary benign traffic of the other "
+                    "magazines interleaved (Props/C02Interleave: interleaved_page_roundtrip, from any state of a parallel-mode "
+                    "network; the four interferences E1-E4 it excludes are proved real and replayed on the C code) and from every "
+                    "reachable state for one magazine stream (single_page_roundtrip_reachable; shape invariants reachable_shape); "
+                    "whole cycles of pages and serial mode are open statements covered by the network oracle; "
                     "Level 2.5/3.5 enhancement, X/26, TOP navigation, zap_links are not modelled.")
     open_statements = ["Zvbi.Props.C02.format_refines_L1Spec_full (false on the unchanged tree: see ..._counterexample)",
                        "Zvbi.Props.C02.page_roundtrip_full (a chain of transmissions from a fresh decoder: follows from C02Roundtrip.single_page_roundtrip by induction over the pages once the shape invariant lopRaw.length = 26 and the consistent-header => no Event.chsw step are added; see NOTES/C02.md)",
@@ -119,6 +121,10 @@ class C02(verif.Spec):
         carousel = style == "carousel"
         serial = 1 if rng.random() < (0.7 if carousel else 0.45) else 0
         nmag = rng.choice([2, 2, 3, 4]) if carousel else rng.choice([1, 2, 2, 3, 4, 8])
+        inter = style == "interleave"  # the schedule shape of C02Interleave.interleaved_page_roundtrip: 2-4 (or all 8)
+        if inter:                      # magazines in parallel mode, strict round robin of single packets, so that between
+            serial = 0                 # any two packets of a page there is traffic (headers, rows, X/27, time-filling
+            nmag = rng.choice([2, 3, 4, 4, 8])   # headers) of every other magazine still transmitting - all of it benign
         single = style == "single"     # the schedule shape of C02Roundtrip.single_page_roundtrip: one magazine, parallel
         if single:                     # mode, two pages alternating (so a previous version is cached), erase flag on/off,
             serial, nmag = 0, 1        # rows permuted / omitted / sent twice
@@ -195,7 +201,8 @@ class C02(verif.Spec):
                     streams[m].append(t)
                     plan.append(m)
         else:
-            ntx = {m: (rng.randrange(4, 8) if single else rng.randrange(2, 6 if tier == "quick" else 9)) for m in mags}
+            ntx = {m: (rng.randrange(4, 8) if single else (rng.randrange(3, 6) if inter else rng.randrange(2, 6 if tier == "quick" else 9)))
+                   for m in mags}
             for m in mags:
                 last = None
                 for _ in range(ntx[m]):
@@ -236,6 +243,13 @@ class C02(verif.Spec):
                 per[m].append(("fill", m))
             pos = {m: 0 for m in mags}
             while any(pos[m] < len(per[m]) for m in mags):
+                if inter:
+                    rr = [m for m in mags if pos[m] < len(per[m])]
+                    rng.shuffle(rr)
+                    for m in rr:
+                        order.append(per[m][pos[m]])
+                        pos[m] += 1
+                    continue
                 m = rng.choice([m for m in mags if pos[m] < len(per[m])])
                 burst = rng.choice([1, 1, 2, 5, 30])
                 order += per[m][pos[m]:pos[m] + burst]
@@ -326,6 +340,10 @@ class C02(verif.Spec):
             need += nd
         for _ in range(20 if quick else 150):
             lines, nd = self.gen_net(rng, tier, "single")
+            cases.append(lines)
+            need += nd
+        for _ in range(20 if quick else 150):
+            lines, nd = self.gen_net(rng, tier, "interleave")
             cases.append(lines)
             need += nd
         # 4. malformed op lines
